@@ -252,7 +252,8 @@ Definition outcome (P : params) (ops : list op) :=
   (map (fun p => (p_id p, p_status p)) (props s), gov_bal s, bal s 10, bal s 11,
    fst (fst (step P kf_code s (OEndBlock (11 + 14 * day) stk0)))).
 
-(* As the code is: the deposit-period proposal is refunded and deleted, its queue entry stays
+(* The explicit PRE-FIX variant (P0 has both dequeue facts false; the tree was repaired in e5a1e24,
+   see C15_tree_dequeues_undecodable_by_key): the deposit-period proposal is refunded and deleted, its queue entry stays
    (SStale) and the next end blocker fails; the voting-period proposal makes the end blocker fail at
    once (the state stays as it was: that block can never be finalized). *)
 Theorem undecodable_refuted :
